@@ -45,7 +45,7 @@ def setup() -> None:
 
 
 def budget(tier: str) -> int:
-    return 3000 if tier == "quick" else 50000
+    return 3000 if tier == "quick" else 200000
 
 
 def wall_cap(tier: str) -> int:
